@@ -230,6 +230,14 @@ package state
 //@     && (self.data.CodeHash != nil ==> result.data.CodeHash == self.data.CodeHash)
 //@     && result.data.Root == self.data.Root
 
+// A storage copy is a fresh map with exactly the entries of the original (the journalled snapshot
+// of an object's dirty/cached storage must read back identically and share nothing).
+//@ func Storage.Copy
+//@   ensures[C09] @copy result != nil && fresh(result) && (forall k common.Hash :: has(self, k) ==> has(result, k) && result[k] == self[k])
+//@   ensures[C09] @nomore forall k common.Hash :: has(result, k) ==> has(self, k)
+//@   loop 1 invariant[C09] cpy != nil && fresh(cpy) && (forall k common.Hash :: $seen(k) && has(self, k) ==> has(cpy, k) && cpy[k] == self[k])
+//@   loop 1 invariant[C09] forall k common.Hash :: has(cpy, k) ==> has(self, k)
+
 // ---- read accessors as observers (C15) ----------------------------------------------------------
 // Trusted: reading a nonce or balance does not change anything a contract mentions (it may load
 // the object into the cache); the values are observers of the state and the address.
